@@ -409,6 +409,7 @@ def r5_exit(prog, rep: Report, pf: PoolFacts):
     body = f.node.body
     sent_i = join_i = mgr_i = None
     sent_ok = join_ok = False
+    complex_for = None
     for i, st in enumerate(body):
         if isinstance(st, ast.For):
             puts = [c for c in ast.walk(st) if isinstance(c, ast.Call) and queue_call(c) and queue_call(c)[0] == "put"
@@ -419,6 +420,8 @@ def r5_exit(prog, rep: Report, pf: PoolFacts):
                 per_proc = it_s in (f"range(len({sn}.procs))", f"{sn}.procs")
                 single = len(st.body) == 1 and len(puts) == 1 and const_value(puts[0].args[0], 0) is None
                 sent_ok = per_proc and single
+                if not (len(st.body) == 1 and len(puts) == 1 and isinstance(st.body[0], ast.Expr) and st.body[0].value is puts[0]):
+                    complex_for = f"`for {src(st.target)} in {it_s}` puts the stop orders through more than one plain put per round"
             joins = [c for c in ast.walk(st) if isinstance(c, ast.Call) and isinstance(c.func, ast.Attribute) and c.func.attr == "join"]
             if joins and join_i is None:
                 join_i = i
@@ -442,6 +445,8 @@ def r5_exit(prog, rep: Report, pf: PoolFacts):
     if kind_ == "other" and any(isinstance(st_, ast.While) and any(isinstance(c_, ast.Call) and queue_call(c_) and queue_call(c_)[0] == "put"
                                                                     for c_ in ast.walk(st_)) for st_ in body):
         rep.unrec("C04.R5", f, "sentinels", f"the stop orders are put by a loop this rule does not read: {what_}")
+    elif kind_ != "bounded" and complex_for is not None:
+        rep.unrec("C04.R5", f, "sentinels", f"the stop orders are put by a loop this rule does not read: {complex_for}")
     else:
       rep.check("C04.R5", f, "sentinels", sent_i is not None and sent_ok, "one None per element of self.procs on the work queue"
                 + (" (count-down with bounded puts, given up only when no worker is left)" if kind_ == "bounded" else ""),
